@@ -2,9 +2,12 @@ package html
 
 import (
 	"fmt"
+	"os"
 	"strings"
+	"sync"
 
 	"github.com/elliotchance/gedcom/v39"
+	"github.com/elliotchance/gedcom/v39/html/core"
 	. "github.com/elliotchance/gedcom/v39/internal/vsym"
 )
 
@@ -165,4 +168,73 @@ func VerifC19_Races(cs int) {
 	VsObserve(len(p.w.names))
 	VsReach("published-under-the-race-monitor")
 	VsAssert("race-run-publishes", !p.panicked && p.err == nil)
+}
+
+// vPublishToDir publishes through the real DirectoryFileWriter and returns the files as written
+// (name -> bytes read back from the directory), in the order of the names given by the writer hook.
+func vPublishToDir(doc *gedcom.Document, opts *PublishShowOptions, jobs int, dir string) (names []string, contents map[string]string, err error) {
+	w := core.NewDirectoryFileWriter(dir)
+	var mu sync.Mutex
+	w.WillWriteFile = func(file *core.File) {
+		mu.Lock()
+		names = append(names, file.Name)
+		mu.Unlock()
+	}
+	err = NewPublisher(doc, opts).Publish(w, jobs)
+	contents = map[string]string{}
+	for _, n := range names {
+		b, rerr := os.ReadFile(dir + "/" + n)
+		if rerr != nil {
+			contents[n] = "unreadable: " + rerr.Error()
+			continue
+		}
+		contents[n] = string(b)
+	}
+	return
+}
+
+// VerifC19_Directory: the real file writer. Document B published into a directory that already holds
+// the site of document A (longer or shorter pages with the same names) gives byte for byte the files
+// that B gives in a fresh directory; a missing output directory is reported as an error.
+// cs%3: which document was published before (0 a longer one, 1 a shorter one, 2 the same with fewer
+// page groups); cs/3%2: jobs 1 or 2.
+func VerifC19_Directory(cs int) {
+	jobs := cs/3%2 + 1
+	mk := func(text string) *gedcom.Document {
+		d, err := gedcom.NewDocumentFromString(text)
+		VsAssume(err == nil)
+		return d
+	}
+	optsB := vAllOptions(LivingVisibilityShow)
+	first, optsA := vC19Doc, vAllOptions(LivingVisibilityShow)
+	second := vDeadFamily
+	switch cs % 3 {
+	case 1:
+		first, second = vDeadFamily, vC19Doc
+	case 2:
+		second = vC19Doc
+		optsB = &PublishShowOptions{ShowIndividuals: true, ShowPlaces: true, ShowFamilies: true, LivingVisibility: LivingVisibilityShow}
+	}
+	used, err := os.MkdirTemp("", "verif-c19-")
+	VsAssume(err == nil)
+	fresh, err := os.MkdirTemp("", "verif-c19-")
+	VsAssume(err == nil)
+	defer os.RemoveAll(used)
+	defer os.RemoveAll(fresh)
+	_, _, errA := vPublishToDir(mk(first), optsA, jobs, used)
+	namesB, inUsed, errB := vPublishToDir(mk(second), optsB, jobs, used)
+	namesF, inFresh, errF := vPublishToDir(mk(second), optsB, jobs, fresh)
+	VsReach("published-into-directories")
+	VsAssert("publishing-into-a-directory-succeeds", errA == nil && errB == nil && errF == nil)
+	same := len(namesB) == len(namesF)
+	for _, n := range namesF {
+		if inUsed[n] != inFresh[n] {
+			same = false
+		}
+	}
+	VsObserve(len(namesF))
+	VsAssert("files-do-not-depend-on-what-the-directory-held-before", same)
+	// a directory that does not exist: an error, not a silent success
+	_, _, errM := vPublishToDir(mk(second), optsB, jobs, fresh+"/missing")
+	VsAssert("missing-output-directory-is-reported", errM != nil)
 }
